@@ -33,6 +33,7 @@ func checkC14(ctx *Ctx, r *Report) {
 	c14ThirdRound(ctx, r)
 	c14ValueGuards(ctx, r)
 	c14DateTimeFormatter(ctx, r)
+	c14FourthRound(ctx, r)
 }
 
 func c14FreshGenerator(ctx *Ctx, r *Report) {
@@ -498,6 +499,72 @@ func c14GuardsAndTypes(ctx *Ctx, r *Report) {
 			return true
 		})
 	}
+	// the same for arguments mapped by kind: argumentForType(context, converter, name, <path>, <type>)
+	argForType := ctx.LookupMethod("internal/languages", "ConverterGenerator", "argumentForType")
+	for _, file := range p.Syntax {
+		for _, d := range file.Decls {
+			fdecl, ok := d.(*ast.FuncDecl)
+			if !ok || fdecl.Body == nil {
+				continue
+			}
+			// every expression a local variable receives
+			assigned := map[types.Object][]ast.Expr{}
+			ast.Inspect(fdecl.Body, func(q ast.Node) bool {
+				if as, ok := q.(*ast.AssignStmt); ok && len(as.Lhs) == len(as.Rhs) {
+					for i, l := range as.Lhs {
+						if id, ok := l.(*ast.Ident); ok {
+							if o := objOf(info, id); o != nil {
+								assigned[o] = append(assigned[o], as.Rhs[i])
+							}
+						}
+					}
+				}
+				return true
+			})
+			// a composite literal is a fresh path (a loop variable as root), not the continuation of an assignment's path
+			var mentions func(e ast.Expr, pred func(*ast.SelectorExpr) bool, depth int) string
+			mentions = func(e ast.Expr, pred func(*ast.SelectorExpr) bool, depth int) string {
+				found := ""
+				ast.Inspect(e, func(q ast.Node) bool {
+					switch x := q.(type) {
+					case *ast.CompositeLit:
+						return false
+					case *ast.SelectorExpr:
+						if pred(x) && found == "" {
+							found = exprString(x)
+						}
+					case *ast.Ident:
+						if depth < 3 {
+							for _, rhs := range assigned[objOf(info, x)] {
+								if f := mentions(rhs, pred, depth+1); f != "" && found == "" {
+									found = f
+								}
+							}
+						}
+					}
+					return true
+				})
+				return found
+			}
+			ast.Inspect(fdecl.Body, func(m ast.Node) bool {
+				c, ok := m.(*ast.CallExpr)
+				if !ok || argForType == nil || callee(info, c) != argForType || len(c.Args) != 5 {
+					return true
+				}
+				fromAssignment := mentions(c.Args[3], func(s *ast.SelectorExpr) bool {
+					return s.Sel.Name == "Path" && namedOf(info.TypeOf(s.X)) == asgT
+				}, 0)
+				if fromAssignment == "" {
+					return true
+				}
+				k++
+				throughArg := mentions(c.Args[4], func(s *ast.SelectorExpr) bool { return namedOf(info.TypeOf(s.X)) == argT }, 0)
+				r.Check(throughArg == "", "flow/value-type-of-path", fmt.Sprintf("languages.%s argument mapped on an assignment path #%d", fdecl.Name.Name, k), c.Pos(), "the value's type is not taken from a builder argument",
+					fmt.Sprintf("languages.%s maps the value found at an assignment's path with the type %s of a builder *argument*: veneers change argument types (promote_options_to_constructor drops nullability) while the object's field keeps its own — the converter formats a pointer as if it were a value", fdecl.Name.Name, throughArg))
+				return true
+			})
+		}
+	}
 	r.Count("direct mappings on assignment paths", k)
 	r.Floor("direct mappings on assignment paths", 1)
 }
@@ -691,4 +758,191 @@ func c14DateTimeFormatter(ctx *Ctx, r *Report) {
 	r.Count("value formatters of the Go converter", 1)
 	r.Check(handles, "skeleton/converter-datetime-formatter", "golang converter value_formatter date-time case", token.NoPos, "date-time values are not printed with %#v",
 		ts.file["value_formatter"]+": every scalar is printed with fmt.Sprintf(\"%#v\", …), time.Time included: for a value with a zone offset the converter prints `time.Date(…, time.Location(\"\"))`, which does not compile")
+}
+
+// c14FourthRound — three defects of the third hunting pass.
+// (a) constructor arguments are mapped by kind, like option arguments: Converter.ConstructorArgs holds
+// ArgumentMapping values built by argumentForType, and every converter template prepares the ones that are not
+// direct with prepare_arg (a builder-typed constructor argument printed as a struct literal does not compile).
+// (b) in mappingForOption the branch that maps an element of the repeated list (`valueType.AsArray().ValueType`)
+// depends on the assignment's method: an index assignment whose value is an array keeps its key; and
+// pathNotNullGuards skips indexed chunks, whose index only exists inside the loop.
+// (c) an argument that feeds several assignments of an option is mapped once: the loop over the assignments
+// skips (`continue`) an assignment whose Value.Argument.Name was already mapped.
+func c14FourthRound(ctx *Ctx, r *Report) {
+	p := ctx.Pkg("internal/languages")
+	if p == nil {
+		return
+	}
+	info := p.TypesInfo
+	// (a) the field's type and how it is filled
+	conv := ctx.LookupType("internal/languages", "Converter")
+	okType := false
+	if conv != nil {
+		if st, ok := conv.Underlying().(*types.Struct); ok {
+			for i := 0; i < st.NumFields(); i++ {
+				if f := st.Field(i); f.Name() == "ConstructorArgs" {
+					if sl, ok := f.Type().(*types.Slice); ok {
+						if nt := namedOf(sl.Elem()); nt != nil && nt.Obj().Name() == "ArgumentMapping" {
+							okType = true
+						}
+					}
+				}
+			}
+		}
+	}
+	argForType := ctx.LookupMethod("internal/languages", "ConverterGenerator", "argumentForType")
+	ctorFn := ctx.LookupMethod("internal/languages", "ConverterGenerator", "constructorArgs")
+	byKind := false
+	var ctorPos token.Pos
+	if ctorFn != nil {
+		if fd, _ := ctx.DeclOf(ctorFn); fd != nil {
+			ctorPos = fd.Pos()
+			ast.Inspect(fd.Body, func(m ast.Node) bool {
+				if c, ok := m.(*ast.CallExpr); ok && argForType != nil && callee(info, c) == argForType {
+					byKind = true
+				}
+				return true
+			})
+		}
+	}
+	r.Count("hunted clauses of the converter generator (4th round)", 1)
+	r.Check(okType && byKind, "skeleton/constructor-args-by-kind", "languages.ConverterGenerator.constructorArgs", ctorPos, "constructor arguments are ArgumentMappings built by argumentForType",
+		"constructor arguments are mapped as direct values whatever their type: an argument whose type has a builder (promote_options_to_constructor on a struct field) is printed as a struct literal where the constructor takes a builder — the emitted expression does not compile")
+	for _, lang := range []string{"golang", "java", "php"} {
+		ts, err := loadTemplates(ctx, lang)
+		if err != nil {
+			r.Undecided("templates of %s: %v", lang, err)
+			continue
+		}
+		tree := ts.trees["converter"]
+		if tree == nil {
+			r.Undecided("anchor lost: %s template \"converter\"", lang)
+			continue
+		}
+		prepares, reads := false, false
+		walkTmpl(tree.Root, func(n parse.Node) bool {
+			rn, ok := n.(*parse.RangeNode)
+			if !ok || !strings.Contains(rn.Pipe.String(), ".Converter.ConstructorArgs") {
+				if wn, ok := n.(*parse.WithNode); ok && strings.Contains(wn.Pipe.String(), ".Converter.ConstructorArgs") {
+					reads = true
+				}
+				return true
+			}
+			reads = true
+			walkTmpl(rn.List, func(q parse.Node) bool {
+				if tn, ok := q.(*parse.TemplateNode); ok && tn.Name == "prepare_arg" {
+					prepares = true
+				}
+				return true
+			})
+			return true
+		})
+		if !reads {
+			r.Undecided("anchor changed: %s template \"converter\" no longer reads .Converter.ConstructorArgs", lang)
+			continue
+		}
+		r.Count("hunted clauses of the converter generator (4th round)", 1)
+		r.Check(prepares, "skeleton/constructor-args-by-kind", lang+" converter template prepares constructor arguments", token.NoPos, ts.file["converter"]+": constructor arguments go through prepare_arg",
+			ts.file["converter"]+": the constructor arguments are printed without prepare_arg: builder, array, map and union arguments are rendered as plain values")
+	}
+	// (b)
+	if fn := ctx.LookupMethod("internal/languages", "ConverterGenerator", "mappingForOption"); fn != nil {
+		fd, _ := ctx.DeclOf(fn)
+		n := 0
+		ast.Inspect(fd.Body, func(m ast.Node) bool {
+			is, ok := m.(*ast.IfStmt)
+			if !ok {
+				return true
+			}
+			element := false
+			for _, st := range is.Body.List {
+				if as, ok := st.(*ast.AssignStmt); ok && len(as.Rhs) == 1 {
+					if strings.HasSuffix(exprString(as.Rhs[0]), ".AsArray().ValueType") {
+						element = true
+					}
+				}
+			}
+			if !element {
+				return true
+			}
+			n++
+			method := false
+			ast.Inspect(is.Cond, func(q ast.Node) bool {
+				if s, ok := q.(*ast.SelectorExpr); ok && s.Sel.Name == "Method" {
+					method = true
+				}
+				return true
+			})
+			r.Check(method, "flow/index-assignment-keeps-key", "languages.mappingForOption element-of-list branch", is.Pos(), "taken according to the assignment's method",
+				"the branch that maps one element of the repeated list is taken for any array-typed value, index assignments included: `map_to_index` on a map of arrays is treated as an append, the key argument is dropped and the generated converter does not compile (undefined: key)")
+			return true
+		})
+		r.Count("element-of-list branches in mappingForOption", n)
+		r.Floor("element-of-list branches in mappingForOption", 1)
+	}
+	if fn := ctx.LookupMethod("internal/languages", "ConverterGenerator", "pathNotNullGuards"); fn != nil {
+		fd, _ := ctx.DeclOf(fn)
+		skips := false
+		ast.Inspect(fd.Body, func(m ast.Node) bool {
+			rs, ok := m.(*ast.RangeStmt)
+			if !ok {
+				return true
+			}
+			for _, st := range rs.Body.List {
+				is, ok := st.(*ast.IfStmt)
+				if !ok || len(is.Body.List) != 1 {
+					continue
+				}
+				if br, ok := is.Body.List[0].(*ast.BranchStmt); !ok || br.Tok != token.CONTINUE {
+					continue
+				}
+				if be, ok := ast.Unparen(is.Cond).(*ast.BinaryExpr); ok && be.Op == token.NEQ && strings.HasSuffix(exprString(be.X), ".Index") && exprString(be.Y) == "nil" {
+					skips = true
+				}
+			}
+			return true
+		})
+		r.Count("hunted clauses of the converter generator (4th round)", 1)
+		r.Check(skips, "flow/index-assignment-keeps-key", "languages.pathNotNullGuards skips indexed chunks", fd.Pos(), "a chunk carrying an index gets no guard outside the loop",
+			"pathNotNullGuards emits a not-nil guard for an indexed chunk (`input.Labels[key] != nil`), which is rendered outside the loop that declares the index: the generated converter does not compile (undefined: key)")
+	}
+	// (c)
+	if fn := ctx.LookupMethod("internal/languages", "ConverterGenerator", "mappingForOption"); fn != nil {
+		fd, _ := ctx.DeclOf(fn)
+		once := false
+		ast.Inspect(fd.Body, func(m ast.Node) bool {
+			rs, ok := m.(*ast.RangeStmt)
+			if !ok {
+				return true
+			}
+			ast.Inspect(rs.Body, func(q ast.Node) bool {
+				is, ok := q.(*ast.IfStmt)
+				if !ok || is.Init == nil {
+					return true
+				}
+				as, ok := is.Init.(*ast.AssignStmt)
+				if !ok || len(as.Rhs) != 1 {
+					return true
+				}
+				ix, ok := ast.Unparen(as.Rhs[0]).(*ast.IndexExpr)
+				if !ok || !strings.HasSuffix(exprString(ix.Index), ".Value.Argument.Name") {
+					return true
+				}
+				if _, isMap := info.TypeOf(ix.X).Underlying().(*types.Map); !isMap {
+					return true
+				}
+				for _, st := range is.Body.List {
+					if br, ok := st.(*ast.BranchStmt); ok && br.Tok == token.CONTINUE {
+						once = true
+					}
+				}
+				return true
+			})
+			return true
+		})
+		r.Count("hunted clauses of the converter generator (4th round)", 1)
+		r.Check(once, "flow/argument-printed-once", "languages.mappingForOption maps each argument once", fd.Pos(), "an assignment whose argument was already mapped is skipped",
+			"mappingForOption produces one printed argument per non-constant assignment: an option argument feeding two assignments (add_assignment) is printed twice — too many arguments in the emitted call")
+	}
 }
